@@ -13,6 +13,7 @@ import (
 	"bytes"
 	"sort"
 	"sync"
+	"sync/atomic"
 )
 
 const VerifImpl ImplType = "verifdb"
@@ -42,6 +43,7 @@ var (
 	verifStores  = map[string]*verifStore{}
 	verifJournal []VerifUnit
 	verifJournalOn bool
+	verifJournalFast int32 // mirrors verifJournalOn, read without the lock
 )
 
 func init() {
@@ -68,6 +70,7 @@ func VerifReset() {
 	verifStores = map[string]*verifStore{}
 	verifJournal = nil
 	verifJournalOn = false
+	atomic.StoreInt32(&verifJournalFast, 0)
 }
 
 // VerifDrop forgets all stores whose directory starts with prefix.
@@ -116,6 +119,29 @@ func VerifRestore(dir string, m map[string][]byte) {
 	}
 }
 
+// VerifHandleSnapshot / VerifHandleRestore work on a DB handle returned by NewDB(VerifImpl,..).
+func VerifHandleSnapshot(d DB) map[string][]byte {
+	s := d.(*verifStore)
+	s.mu.Lock()
+	defer s.mu.Unlock()
+	r := make(map[string][]byte, len(s.m))
+	for k, v := range s.m {
+		r[k] = v
+	}
+	return r
+}
+
+// VerifHandleRestore replaces the content by m (values are shared, never mutated by the store).
+func VerifHandleRestore(d DB, m map[string][]byte) {
+	s := d.(*verifStore)
+	s.mu.Lock()
+	defer s.mu.Unlock()
+	s.m = make(map[string][]byte, len(m))
+	for k, v := range m {
+		s.m[k] = v
+	}
+}
+
 // VerifApply applies ops of a unit (or a prefix of them) to its store.
 func VerifApply(dir string, ops []VerifOp) {
 	s := verifOpen(dir)
@@ -136,6 +162,7 @@ func VerifJournalStart() {
 	defer verifMu.Unlock()
 	verifJournal = nil
 	verifJournalOn = true
+	atomic.StoreInt32(&verifJournalFast, 1)
 }
 
 // VerifJournalStop stops recording and returns the journal.
@@ -143,6 +170,7 @@ func VerifJournalStop() []VerifUnit {
 	verifMu.Lock()
 	defer verifMu.Unlock()
 	verifJournalOn = false
+	atomic.StoreInt32(&verifJournalFast, 0)
 	j := verifJournal
 	verifJournal = nil
 	return j
@@ -156,6 +184,9 @@ func VerifJournalLen() int {
 }
 
 func (s *verifStore) record(kind string, ops []VerifOp) {
+	if atomic.LoadInt32(&verifJournalFast) == 0 {
+		return
+	}
 	verifMu.Lock()
 	if verifJournalOn {
 		verifJournal = append(verifJournal, VerifUnit{Store: s.name, Kind: kind, Ops: ops})
